@@ -185,6 +185,7 @@ def run_property(prop, tier, a):
     assumed = []
     notes = set()
     callees = set()
+    ghost_use = {}
     # ---- exhaustively checked tables (complete proofs over finite domains)
     n_tab = 0
     for tm in list(C.TABLES.values()) + list(C.DICTS.values()):
@@ -227,6 +228,7 @@ def run_property(prop, tier, a):
     results = run_units(units, opts, verbose=a.verbose, extra_jobs=bjobs) if (units or bjobs) else []
     relevant = 0
     bounded_cov = []
+    search_cache = {}
     for r in results:
         if r.get('kind') == 'bounded':
             bounded_cov.append({k: r[k] for k in ('target', 'gap', 'gen', 'clauses', 'evaluations',
@@ -259,6 +261,9 @@ def run_property(prop, tier, a):
             notes.add('%s: %s' % (r['target'].split('.')[-1], n))
         for cal in r.get('callees', []):
             callees.add(cal)
+        gu = ghost_use.setdefault(r['target'], [set(), set()])
+        gu[0].update(r.get('ghost_all', []))
+        gu[1].update(r.get('ghost_used', []))
         for rec in r['obligations']:
             if rec['kind'] == 'ensures' and (not rec.get('props') or prop not in rec['props']):
                 continue
@@ -282,7 +287,17 @@ def run_property(prop, tier, a):
                     path = write_replay(prop, r, rec, 'counter-model reproduced on the real function')
                     violations.append((key, rec, path, ''))
             else:
-                # sat-but-not-reproduced, or unknown
+                # sat-but-not-reproduced, or unknown: bounded native search for a real failing
+                # input of this clause (generator declared by the contract)
+                found = native_search(C, r, rec, seed, tier, search_cache)
+                if found is not None and not kf:
+                    rec = dict(rec)
+                    rec['model_args'] = found['args']
+                    rec['replay'] = {'status': 'reproduced', 'observed': found['observed'],
+                                     'found_by': 'bounded native search after solver said %s' % rec['status']}
+                    path = write_replay(prop, r, rec, 'solver left the obligation open; bounded native search found a failing input on the real function')
+                    violations.append((key, rec, path, ''))
+                    continue
                 if kf:
                     known_hits.append((kf[0], key, rec))
                 elif key in lock:
@@ -290,6 +305,10 @@ def run_property(prop, tier, a):
                     violations.append((key, rec, path, ' no-failing-input-found'))
                 else:
                     undecided.append((key, '%s (%s)' % (rec['status'], rec.get('reason') or rep.get('status'))))
+    # a ghost anchor that no case of its function reached means the contract no longer binds
+    for tgt, (allg, used) in ghost_use.items():
+        for g in sorted(allg - used):
+            undecided.append(('%s|anchor' % tgt, 'contract-anchor-missing: ghost %s' % g))
     # ---- extra engines (precframe, refinement pass, bounded tiers ...)
     extra_cov = {}
     for eng_name in P.get('engines', []):
@@ -350,6 +369,8 @@ def run_property(prop, tier, a):
     for e in errors:
         print('ERROR %s' % e)
     level = P.get('level', 'proof')
+    if level == 'proof' and (known_hits or bounded_cov):
+        level = 'other'     # not every obligation is discharged deductively on this run
     cov = {
         'obligations': total,
         'discharged': discharged + len(known_hits) * 0,
@@ -365,7 +386,7 @@ def run_property(prop, tier, a):
         'undecided': len(undecided),
         'havoc_notes': sorted(notes)[:40],
         'extraction': 'function bodies re-parsed from %s on this run with ast; docstrings/comments dropped; back-end bindings read from the imported module (MPMATH_NOGMPY=1)' % REPO,
-        'explanation': P.get('explanation', ''),
+        'explanation': P.get('explanation', '') or ('every obligation generated from the current tree was discharged by the back ends listed in by_backend' if not (known_hits or bounded_cov) else 'mixed: see known_findings_hit / bounded'),
         'bounded': bounded_cov,
         'callee_contracts_relied_on': [
             '%s (%s)' % (cal, 'assumed leaf' if C.BY_NAME[cal].assumed else
@@ -400,6 +421,23 @@ def run_property(prop, tier, a):
     if undecided:
         return 2
     return 0
+
+
+def native_search(C, unit, rec, seed, tier, cache):
+    ct = C.BY_NAME.get(unit.get('target'))
+    if ct is None or not ct.search or rec.get('kind') not in ('ensures', 'exception'):
+        return None
+    ck = (ct.target, rec.get('clause'))
+    if ck in cache:
+        return cache[ck]
+    from pyvc import gens, bounded
+    clause = [rec['clause']] if rec['kind'] == 'ensures' else None
+    res = bounded.run_bounded(ct, gens.GENS[ct.search](seed, tier), clauses=clause, max_fail=1, budget_s=60)
+    out = res['failures'][0] if res['failures'] else None
+    if out is not None and rec['kind'] == 'exception' and out.get('clause') != 'exception':
+        out = None
+    cache[ck] = out
+    return out
 
 
 def z3_version():
